@@ -269,6 +269,13 @@ class Machine:
                 return args[0]
             if base in ('print', 'warn'):
                 return None
+            # the standard library's regular expressions, by their real implementation (text in, text out)
+            import re as _re
+            if base == 'compile' and args and isinstance(args[0], str):
+                return self.regex(_re.compile(*args, **kwargs))
+            if base in ('findall', 'split', 'sub', 'match', 'search', 'fullmatch') and len(args) >= 2 and all(isinstance(a_, str) for a_ in args[:2]) and not (base == 'split' and len(args) == 1):
+                fn_ = getattr(self.regex(_re.compile(args[0])).attrs, 'get')(base)
+                return fn_(*args[1:], **kwargs)
             if base == 'float' and args and isinstance(args[0], str):
                 try: return Fraction(args[0].strip())
                 except ValueError:
@@ -282,6 +289,14 @@ class Machine:
             if base == 'dict' and args and isinstance(args[0], dict):
                 d = dict(args[0]); d.update(kwargs); return d
         return NotImplemented
+
+    def regex(self, pat):
+        def wrap_match(m_):
+            if m_ is None: return None
+            return Obj(name='match', attrs={'group': m_.group, 'groups': m_.groups, 'start': m_.start, 'end': m_.end, 'span': m_.span, 'groupdict': m_.groupdict})
+        return Obj(name=f'regex {pat.pattern!r}', attrs={'findall': pat.findall, 'split': pat.split, 'sub': pat.sub, 'pattern': pat.pattern,
+                                                          'match': (lambda *a, **k: wrap_match(pat.match(*a, **k))), 'search': (lambda *a, **k: wrap_match(pat.search(*a, **k))),
+                                                          'fullmatch': (lambda *a, **k: wrap_match(pat.fullmatch(*a, **k)))})
 
     def ndarray(self, flat, shape):
         flat = Vec(flat)
@@ -422,6 +437,8 @@ def explore(chk, repo, thorough=False):
         Scenario('3 x 2 grid, tuple must_include, log scale, stdlib pool', [('x', 'X', 0, 2, 'log', (1,), 2), ('y', 'Y', 0, 1, 'linear', (), 2)], pathos=False),
         Scenario('2 x 2 grid, one case raising (avoid_crashes)', [('x', 'X', 0, 1, 'linear', (), 2), ('y', 'Y', 0, 1, 'linear', [], 2)], fail=((Fraction(0), Fraction(1)),)),
         Scenario('one input, 3 values', [('x', 'X', 0, 2, 'linear', [], 3)]),
+        Scenario('negative and fractional inputs', [('x', 'X', Fraction(-1, 2), Fraction(3, 2), 'linear', [Fraction(-1, 4)], 3), ('y', 'Y', Fraction(1, 4), Fraction(3, 4), 'linear', (), 2)], pathos=False),
+        Scenario('must-include values the journal prints in exponent form', [('x', 'X', 0, 1, 'linear', (Fraction(1, 20000),), 2), ('y', 'Y', 0, 10 ** 21, 'linear', [Fraction(25 * 10 ** 19)], 2)]),
     ]
     n_kill = 0
     for sc in scenarios:
